@@ -58,7 +58,8 @@ TKReturn ==
   /\ Step(KTop \/ KMid \/ GTop \/ GTest)
   /\ pc' = "finish"
   /\ (objs'[fobj].cls = "ok") = (Ev.cls = "ok")
-  /\ CASE Ev.i = 0 -> msg' = "CONVERGED"
+  /\ CASE Ev.i = 0 -> msg' = (IF objs'[fobj].cls = "ok" THEN "CONVERGED"
+                              ELSE "MAX. ITERATION REACHED, NOT CONVERGED")
        [] Ev.i > 0 -> msg' = "MAX. ITERATION REACHED, NOT CONVERGED"
        [] OTHER -> (msg' = "Error in solver" \/ (msg' = msg /\ msg # ""))
 
